@@ -26,6 +26,7 @@ type yamlGen struct {
 	sb      strings.Builder
 	scalars []int // offsets where a plain scalar starts
 	indents []int // offsets of the indentation of the first line of a nested block (len >= 1 space)
+	valEnds []int // offsets just behind a plain scalar that is the value of a block mapping entry
 	uniq    int
 	lines   int
 }
@@ -33,7 +34,11 @@ type yamlGen struct {
 func (g *yamlGen) word() string {
 	g.uniq++
 	if g.spec.Wide && g.r.Bool(0.5) {
-		return fmt.Sprintf("%s%d", kernel.Pick(g.r, []string{"héllo", "日本語", "한국", "ßü", "ＡＢ", "emoji😀"}), g.uniq)
+		w := kernel.Pick(g.r, []string{"héllo", "日本語", "한국", "ßü", "ＡＢ", "emoji😀", "é", "値"})
+		if g.r.Bool(0.5) {
+			return fmt.Sprintf("w%d%s", g.uniq, w) // ends with a multi-byte character
+		}
+		return fmt.Sprintf("%s%d", w, g.uniq)
 	}
 	return fmt.Sprintf("%s%d", kernel.Pick(g.r, []string{"alpha", "beta", "key", "value", "x"}), g.uniq)
 }
@@ -86,9 +91,28 @@ func (g *yamlGen) block(indent, depth int) {
 			continue
 		}
 		g.sb.WriteString(" ")
+		ns := len(g.scalars)
+		before := g.sb.Len()
 		g.scalar()
+		if len(g.scalars) == ns+1 && g.scalars[ns] == before {
+			g.valEnds = append(g.valEnds, g.sb.Len()) // a plain word or number, not quoted, not a flow sequence
+		}
 		g.sb.WriteString(g.spec.Term)
 	}
+}
+
+// ValueEnds returns the offsets just behind the plain scalar values of block mapping entries: a
+// `: x` there is a second mapping value on one line, which YAML forbids.
+func (s *YAMLSpec) ValueEnds() []int {
+	g := &yamlGen{r: kernel.NewRand(kernel.Mix(s.Seed, 171)), spec: s}
+	for d := 0; d < max(1, s.Docs); d++ {
+		if d > 0 {
+			g.sb.WriteString("---" + s.Term)
+		}
+		g.lines = 0
+		g.block(0, 3)
+	}
+	return g.valEnds
 }
 
 func (s *YAMLSpec) Build() (text string, scalars, indents []int) {
